@@ -1,6 +1,7 @@
 package main
 
 import (
+	"os"
 	"fmt"
 	"go/token"
 	"go/types"
@@ -392,7 +393,11 @@ func (st *tstate) trace(v ssa.Value, path []string, c *tctx) {
 				break
 			}
 		}
-		if st.t.Lift > 0 && st.lifted < st.t.Lift {
+		lift := st.t.Lift
+		if lift == 0 && x.Parent() != nil && x.Parent().Parent() != nil {
+			lift = 1 // the parameter of a function literal: what its caller (the function it is handed to) passes
+		}
+		if lift > 0 && st.lifted < lift {
 			callers := st.t.w.CG().Callers[x.Parent()]
 			if st.t.LiftFilter != nil {
 				var kept []*Site
@@ -411,8 +416,12 @@ func (st *tstate) trace(v ssa.Value, path []string, c *tctx) {
 					}
 				}
 				all := idx >= 0
+				isLit := x.Parent().Parent() != nil
 				for _, cs := range callers {
-					if cs.Common().IsInvoke() || cs.Common().StaticCallee() != x.Parent() || idx >= len(cs.Common().Args) {
+					if cs.Common().IsInvoke() || idx >= len(cs.Common().Args) {
+						all = false
+					}
+					if cs.Common().StaticCallee() != x.Parent() && !isLit {
 						all = false
 					}
 				}
@@ -595,6 +604,9 @@ func (st *tstate) allocContents(root *ssa.Alloc, cur ssa.Value, prefix []string,
 		return 0
 	}
 	for _, ref := range *refs {
+		if os.Getenv("C4E_DEBUG2") != "" && root.Comment == "list" {
+			fmt.Printf("ALLOCREF %s %T %s path=%s\n", root.Parent().Name(), ref, ref.String(), pathStr(path))
+		}
 		switch r := ref.(type) {
 		case *ssa.Store:
 			if r.Addr != cur {
@@ -634,6 +646,17 @@ func (st *tstate) allocContents(root *ssa.Alloc, cur ssa.Value, prefix []string,
 			if hasSuffixAny(callName(r.Common()), readOnlyPointerCallees...) {
 				continue // the callee only reads through the pointer (marshalling, rendering)
 			}
+			if h := r.Common().StaticCallee(); h != nil && h.Blocks != nil {
+				ro := true
+				for i, a := range r.Common().Args {
+					if a == cur && (i >= len(h.Params) || !readOnlyParam(h.Params[i], 0)) {
+						ro = false
+					}
+				}
+				if ro {
+					continue // a module helper that only reads what the pointer points to
+				}
+			}
 			for _, a := range r.Common().Args {
 				if a == cur {
 					if st.killed(root, r, prefix, path) {
@@ -647,6 +670,21 @@ func (st *tstate) allocContents(root *ssa.Alloc, cur ssa.Value, prefix []string,
 					}
 				}
 			}
+		case *ssa.ChangeType:
+			// the pointer converted to another pointer type (PT(val) in generic code): same storage
+			if r.X == cur {
+				n += st.allocContents(root, r, prefix, path, c)
+			}
+		case *ssa.MakeClosure:
+			// the local is captured by a function literal: what the literal stores through the captured variable
+			if lit, ok := r.Fn.(*ssa.Function); ok && len(prefix) == 0 {
+				for bi, bnd := range r.Bindings {
+					if bnd != cur || bi >= len(lit.FreeVars) {
+						continue
+					}
+					n += st.freeVarStores(lit.FreeVars[bi], path, &tctx{fn: lit})
+				}
+			}
 		case *ssa.MakeInterface:
 			// address boxed into an interface then passed to a call (proto.Unmarshal(bz, &x))
 			if r.X == cur && r.Referrers() != nil {
@@ -654,6 +692,17 @@ func (st *tstate) allocContents(root *ssa.Alloc, cur ssa.Value, prefix []string,
 					if call, ok := rr.(*ssa.Call); ok {
 						if hasSuffixAny(callName(call.Common()), readOnlyPointerCallees...) {
 							continue
+						}
+						if h := call.Common().StaticCallee(); h != nil && h.Blocks != nil {
+							ro := true
+							for i, a := range call.Common().Args {
+								if a == ssa.Value(r) && (i >= len(h.Params) || !readOnlyParam(h.Params[i], 0)) {
+									ro = false
+								}
+							}
+							if ro {
+								continue
+							}
 						}
 						st.o.Calls[call] = true
 						st.leaf("outparam", call, path)
@@ -945,3 +994,101 @@ func (w *World) throughHelpers(v ssa.Value, stopAt ...string) (ssa.Value, func(s
 
 // readOnlyPointerCallees: dependency functions that take a pointer only to read what it points to.
 var readOnlyPointerCallees = []string{"codec.BinaryCodec.MustMarshal", "codec.BinaryCodec.Marshal", "codec.Codec.MustMarshal", "codec.Codec.Marshal", "codec.BinaryCodec.MustMarshalLengthPrefixed", ".String", "codec.JSONCodec.MustMarshalJSON"}
+
+// readOnlyParam: the function only reads through the pointer (or interface holding a pointer) handed in as p: every
+// use is a load, a field / element address that is itself only read, a conversion, or an argument of a callee that is
+// read-only in that position.
+func readOnlyParam(p *ssa.Parameter, depth int) bool {
+	if depth > 3 {
+		return false
+	}
+	var ok func(v ssa.Value, d int) bool
+	ok = func(v ssa.Value, d int) bool {
+		if d > 6 || v.Referrers() == nil {
+			return d <= 6
+		}
+		for _, ref := range *v.Referrers() {
+			switch r := ref.(type) {
+			case *ssa.UnOp:
+				if r.Op != token.MUL {
+					return false
+				}
+			case *ssa.FieldAddr:
+				if !ok(r, d+1) {
+					return false
+				}
+			case *ssa.IndexAddr:
+				if !ok(r, d+1) {
+					return false
+				}
+			case *ssa.MakeInterface, *ssa.ChangeInterface, *ssa.ChangeType, *ssa.TypeAssert, *ssa.Phi:
+				if !ok(r.(ssa.Value), d+1) {
+					return false
+				}
+			case *ssa.Store:
+				if r.Addr == v {
+					return false
+				}
+				return false // the pointer itself is stored somewhere
+			case ssa.CallInstruction:
+				cc := r.Common()
+				if hasSuffixAny(callName(cc), readOnlyPointerCallees...) {
+					continue
+				}
+				h := cc.StaticCallee()
+				if h == nil || h.Blocks == nil {
+					return false
+				}
+				for i, a := range cc.Args {
+					if a == v && (i >= len(h.Params) || !readOnlyParam(h.Params[i], depth+1)) {
+						return false
+					}
+				}
+			case *ssa.DebugRef:
+			default:
+				return false
+			}
+		}
+		return true
+	}
+	return ok(p, 0)
+}
+
+// freeVarStores traces the values a function literal stores through a captured variable (whole-value stores and
+// stores through field addresses compatible with the path). Returns the number of contributing stores.
+func (st *tstate) freeVarStores(fv *ssa.FreeVar, path []string, c *tctx) int {
+	n := 0
+	var walk func(cur ssa.Value, prefix []string, depth int)
+	walk = func(cur ssa.Value, prefix []string, depth int) {
+		if cur.Referrers() == nil || depth > 5 {
+			return
+		}
+		for _, ref := range *cur.Referrers() {
+			switch r := ref.(type) {
+			case *ssa.Store:
+				if r.Addr != cur {
+					continue
+				}
+				if rest, ok := relPath(prefix, path); ok {
+					old := st.at
+					st.at = nil
+					st.trace(r.Val, rest, c)
+					st.at = old
+					n++
+				}
+			case *ssa.FieldAddr:
+				if r.X == cur {
+					np := append(append([]string{}, prefix...), fieldElem(cur.Type(), r.Field))
+					if pathCompatible(np, path) {
+						walk(r, np, depth+1)
+					}
+				}
+			}
+		}
+	}
+	walk(fv, nil, 0)
+	if os.Getenv("C4E_DEBUG2") != "" {
+		fmt.Println("FVSTORES", fv.Parent().Name(), fv.Name(), pathStr(path), n)
+	}
+	return n
+}
